@@ -939,6 +939,7 @@ func runC32(c *Ctx) {
 			return true
 		}
 		ver, tokenPv := "", ""
+		var verExpr, tokExpr ast.Expr
 		var tokPos token.Pos = lit.Pos()
 		for _, el := range lit.Elts {
 			kv, ok := el.(*ast.KeyValueExpr)
@@ -948,9 +949,21 @@ func runC32(c *Ctx) {
 			switch kv.Key.(*ast.Ident).Name {
 			case "Version":
 				ver = constName(ei, kv.Value)
+				verExpr = kv.Value
 			case "Token":
 				tokenPv, tokPos = ei.Prov(kv.Value), kv.Pos()
+				tokExpr = kv.Value
 			}
+		}
+		if ver == "" && verExpr != nil && isTag(verExpr) {
+			// One literal for both formats: the Version field is the subject's tag itself
+			// (converted). Then the tag must be known, here, to be one of the version
+			// constants, and the token must follow from it. Decided by enumerating the tag
+			// over {TokenV1, TokenV2, anything else} and evaluating the path facts - and
+			// the guards of the token's definitions - that speak only about the tag.
+			n := identityByTag(c, ei, lit, verExpr, tokExpr, isTag)
+			nid += n
+			return true
 		}
 		if ver == "" {
 			c.Ob("identity", "ExtractCertificateIdentity#identity-has-a-constant-version", lit.Pos(), false, "every constructed identity carries one of the version constants")
@@ -981,6 +994,172 @@ func runC32(c *Ctx) {
 		return true
 	})
 	c.Floor("identity token constructions", nid, 2)
+}
+
+// evalBool3 evaluates a boolean expression built from !, &&, || over atoms whose value the
+// callback may or may not know.
+func evalBool3(e ast.Expr, atom func(e ast.Expr) (bool, bool)) (bool, bool) {
+	e = ast.Unparen(e)
+	switch x := e.(type) {
+	case *ast.UnaryExpr:
+		if x.Op == token.NOT {
+			v, k := evalBool3(x.X, atom)
+			return !v, k
+		}
+	case *ast.BinaryExpr:
+		if x.Op == token.LAND || x.Op == token.LOR {
+			a, ka := evalBool3(x.X, atom)
+			b, kb := evalBool3(x.Y, atom)
+			if x.Op == token.LAND {
+				if ka && !a || kb && !b {
+					return false, true
+				}
+				return a && b, ka && kb
+			}
+			if ka && a || kb && b {
+				return true, true
+			}
+			return a || b, ka && kb
+		}
+	}
+	return atom(e)
+}
+
+// identityByTag decides the single-literal form of ExtractCertificateIdentity (see the call
+// site); it returns the number of version constants the literal can be built for.
+func identityByTag(c *Ctx, ei *Fn, lit *ast.CompositeLit, verExpr, tokExpr ast.Expr, isTag func(ast.Expr) bool) int {
+	consts := []string{"TokenV1", "TokenV2"}
+	unconv := func(e ast.Expr) ast.Expr {
+		e = ast.Unparen(e)
+		for {
+			cv, ok := e.(*ast.CallExpr)
+			if !ok || len(cv.Args) != 1 {
+				return e
+			}
+			if tv, ok := ei.Info.Types[cv.Fun]; !ok || !tv.IsType() {
+				return e
+			}
+			e = ast.Unparen(cv.Args[0])
+		}
+	}
+	verConst := func(e ast.Expr) string {
+		n := constName(ei, unconv(e))
+		for _, k := range consts {
+			if n == k {
+				return n
+			}
+		}
+		return ""
+	}
+	// atom under the assumption tag == assumed ("" = some other value)
+	atomFor := func(assumed string) func(e ast.Expr) (bool, bool) {
+		return func(e ast.Expr) (bool, bool) {
+			be, ok := ast.Unparen(e).(*ast.BinaryExpr)
+			if !ok || be.Op != token.EQL && be.Op != token.NEQ {
+				return false, false
+			}
+			var k string
+			switch {
+			case isTag(be.X) && verConst(be.Y) != "":
+				k = verConst(be.Y)
+			case isTag(be.Y) && verConst(be.X) != "":
+				k = verConst(be.X)
+			default:
+				return false, false
+			}
+			return (k == assumed) == (be.Op == token.EQL), true
+		}
+	}
+	// consistent: no tag-only fact at node contradicts the assumption; unknownExtra: a fact
+	// at node, absent at the literal, that the assumption does not decide
+	factKey := func(fa *Fact) string { return fmt.Sprintf("%d:%v:%v", fa.Expr.Pos(), fa.Truth, fa.Tag != nil) }
+	atLit := map[string]bool{}
+	for _, fa := range ei.FactsAt(lit).Facts {
+		if fa.Kind == FCmp && fa.Expr != nil {
+			atLit[factKey(fa)] = true
+		}
+	}
+	check := func(node ast.Node, assumed string, extraOnly bool) (consistent, decided bool) {
+		consistent, decided = true, true
+		for _, fa := range ei.FactsAt(node).Facts {
+			if fa.Kind != FCmp || fa.Expr == nil {
+				continue
+			}
+			if extraOnly && atLit[factKey(fa)] {
+				continue
+			}
+			var v, known bool
+			if fa.Tag != nil {
+				if isTag(fa.Tag) && verConst(fa.Expr) != "" {
+					v, known = verConst(fa.Expr) == assumed, true
+				}
+			} else {
+				v, known = evalBool3(fa.Expr, atomFor(assumed))
+			}
+			if !known {
+				if extraOnly {
+					decided = false
+				}
+				continue
+			}
+			if v != fa.Truth {
+				consistent = false
+			}
+		}
+		return
+	}
+	otherOK, _ := check(lit, "", false)
+	c.Ob("identity", "ExtractCertificateIdentity#identity-has-a-constant-version", lit.Pos(), !otherOK, "the Version field is the subject's tag, and where the identity is built the tag is known to be one of the version constants")
+	for _, nd := range shallowNodes(ei.Body) {
+		switch nd.(type) {
+		case *ast.ForStmt, *ast.RangeStmt:
+			c.Ob("identity", "ExtractCertificateIdentity#token-follows-version", nd.Pos(), false, "a loop in the function: which definition of the token reaches the identity is not decided")
+			return 0
+		}
+	}
+	n := 0
+	for _, ver := range consts {
+		if ok, _ := check(lit, ver, false); !ok {
+			continue
+		}
+		n++
+		// the token under tag == ver: the last definition (in source order; the function has
+		// no loops) whose guard holds under the assumption
+		tokenPv := ""
+		decided := true
+		if v := ei.varOf(tokExpr); v != nil {
+			var best *vdef
+			defs := ei.defsOf(v)
+			for i := range defs {
+				d := &defs[i]
+				if d.rhs == nil || d.multi {
+					decided = false
+					continue
+				}
+				var at ast.Node = d.rhs
+				cons, dec := check(at, ver, true)
+				if !dec {
+					decided = false
+				}
+				if cons && (best == nil || d.pos > best.pos) {
+					best = d
+				}
+			}
+			if best != nil {
+				tokenPv = ei.Prov(best.rhs)
+			}
+		} else {
+			tokenPv = ei.Prov(tokExpr)
+		}
+		switch ver {
+		case "TokenV2":
+			c.Ob("identity", "ExtractCertificateIdentity#v2-token-is-whole-CN", lit.Pos(), decided && tokenPv == "param#0.Subject.CommonName", "a v2 identity's token is the whole common name (unique per subject: version, id and key hash); found "+tokenPv)
+		case "TokenV1":
+			c.Ob("identity", "ExtractCertificateIdentity#v1-token-is-third-part", lit.Pos(), decided && strings.Contains(tokenPv, "strings.SplitN()[const:2]"), "a v1 identity's token is the third CN part; found "+tokenPv)
+		}
+		c.Ob("identity", "ExtractCertificateIdentity#"+ver+"-only-for-its-own-tag", lit.Pos(), true, "the identity's version is the subject's tag itself")
+	}
+	return n
 }
 
 // ---------------------------------------------------------------------------------------
